@@ -136,6 +136,21 @@ class C09(BaseCheck):
                 if b - a >= 2:
                     cut = r.randrange(a + 1, b)
                     out.append((text[:cut], 'trunc-in-' + k, 'text ends inside a quoted %s (opened at %d)' % (k, a)))
+        for k in ('str', 'uri'):
+            spans = [(a, b) for (a, b) in by.get(k, []) if b - a >= 2]
+            if spans:
+                a, b = r.choice(spans)
+                at = r.randrange(a + 1, b)
+                if text[at - 1] != '\\':
+                    ch = r.choice(['\x01', '\x1f', '\t', '\x00', '\x0b'])
+                    # delivered WITHOUT a must-reject claim: the statement's list of structurally broken documents
+                    # names illegal escapes, not raw control characters (and pyparsing expands a raw tab to blanks
+                    # before hszinc's grammar sees it, so hszinc accepts that one)
+                    out.append((text[:at] + ch + text[at:], 'ctrl-in-' + k, None))
+        opens = by.get('lopen', []) + by.get('dopen', [])
+        if opens:
+            a, b = r.choice(opens)
+            out.append((text[:a] + text[a:b] + text[a:], 'extra-open', 'an opening bracket duplicated at %d: one more open than close' % a))
         for k, why in (('lclose', 'closing ] deleted'), ('dclose', 'closing } deleted'), ('gclose', 'closing >> deleted'),
                        ('lopen', 'opening [ deleted'), ('dopen', 'opening { deleted'), ('gopen', 'opening << deleted')):
             spans = by.get(k, [])
@@ -234,7 +249,7 @@ class C09(BaseCheck):
                     if kind == 'drop-header':
                         continue      # the second grid's rows would simply join the first grid's text
                     deliveries.append({'text': base[:off] + text2, 'faults': [kind + '@grid2'],
-                                       'must_reject': why + ' (in the second grid of the text)'})
+                                       'must_reject': (why + ' (in the second grid of the text)') if why else None})
                 d = None
             else:
                 case['class'] = 'peer'
